@@ -22,12 +22,16 @@ from mc.core.ctx import Res
 ID = "C04"
 LEVEL = "exploration"
 RULE = (
-    "all command sequences up to length L over 25 letters on 3 modes x 8 routines (x every legal linearisation answer for short "
+    "all command sequences up to length L over 31 letters on 3 modes x 9 routines (x every legal linearisation answer for short "
     "sequences); a case is non-trivial when at least one routine returned an order different from the input order"
 )
 
 N = 3
 ONE_CLASSES = [ops.Rgate, ops.Sgate, ops.Kgate, ops.Vgate, ops.Pgate, ops.Xgate, ops.Zgate]
+
+
+class Crash(Exception):
+    """an exception other than CircuitError escaped from a routine"""
 
 
 def letters():
@@ -45,14 +49,20 @@ def letters():
             ls.append(("MF", s))
     for i, j in itertools.permutations(range(N), 2):
         ls.append(("FF", (i, j)))  # op on mode j whose parameter is the measurement of mode i
+    for i in range(N):
+        ls.append(("FS", (i,)))  # op on mode i whose parameter is the measurement of mode i itself
+    for i, j in itertools.combinations(range(N), 2):
+        ls.append(("FB", (i, j)))  # two-mode op on (i, j) whose parameter is the measurement of mode i
     return ls
 
 
 LETTERS = letters()
+BASE = [l for l in LETTERS if l[0] not in ("FS", "FB")]  # the 25 letters without self-feed operations
 
 
-def build(seq, distinct_classes=False):
-    regs = [RegRef(i) for i in range(N)]
+def build(seq, distinct_classes=False, offset=0):
+    """offset > 0: the register has `offset` deleted modes in front, the letters act on modes offset..offset+N-1"""
+    regs = [RegRef(i + offset) for i in range(N)]
     cmds = []
     k = 0
     for lab, ms in seq:
@@ -68,6 +78,10 @@ def build(seq, distinct_classes=False):
             cmds.append(Command(ops.S2gate(0.3, 0.1), [regs[m] for m in ms]))
         elif lab == "FF":
             cmds.append(Command(ops.Dgate(regs[ms[0]].par, 0.0), [regs[ms[1]]]))
+        elif lab == "FS":
+            cmds.append(Command(ops.Dgate(regs[ms[0]].par, 0.0), [regs[ms[0]]]))
+        elif lab == "FB":
+            cmds.append(Command(ops.BSgate(regs[ms[0]].par, 0.0), [regs[ms[0]], regs[ms[1]]]))
     return regs, cmds
 
 
@@ -78,11 +92,11 @@ def required_pairs(seq):
     for i in range(len(seq)):
         li, mi = seq[i]
         ti = {mi[1]} if li == "FF" else set(mi)
-        pi = {mi[0]} if li == "FF" else set()
+        pi = {mi[0]} if li in ("FF", "FS", "FB") else set()
         for j in range(i + 1, len(seq)):
             lj, mj = seq[j]
             tj = {mj[1]} if lj == "FF" else set(mj)
-            pj = {mj[0]} if lj == "FF" else set()
+            pj = {mj[0]} if lj in ("FF", "FS", "FB") else set()
             if (ti & tj) or (ti & pj) or (pi & tj):
                 req.append((i, j))
     return req
@@ -245,6 +259,14 @@ def routines(seq, res, case, chooser_mode):
             out["GBS.compile"] = (cmds, compiler_db["gbs"]().compile(list(cmds), regs))
         except pu.CircuitError as e:
             out["GBS.compile"] = (cmds, e)
+        # the same circuit on a register whose first mode has been deleted (active register = modes 1..N)
+        regs, cmds = build(seq, offset=1)
+        try:
+            out["GBS.compile/deleted-mode"] = (cmds, compiler_db["gbs"]().compile(list(cmds), regs))
+        except pu.CircuitError as e:
+            out["GBS.compile/deleted-mode"] = (cmds, e)
+        except Exception as e:
+            out["GBS.compile/deleted-mode"] = (cmds, Crash(f"{type(e).__name__}: {e}"))
         return out
 
     if chooser_mode:
@@ -273,40 +295,44 @@ def routines(seq, res, case, chooser_mode):
                 res.violation(f"C04|{nm}|marked-outside-B|{pname}", f"group_operations({fmt(seq)}, {pname}) left a marked operation in A or C", c2)
             if not B and C:
                 res.violation(f"C04|{nm}|C-without-B|{pname}", f"group_operations({fmt(seq)}, {pname}) returned empty B with non-empty C", c2)
-        cmds, got = out["GBS.compile"]
-        if isinstance(got, Exception):
+        for gkey in ("GBS.compile", "GBS.compile/deleted-mode"):
+          cmds, got = out[gkey]
+          if isinstance(got, Crash):
+            res.violation("C04|GBS.compile|crash|deleted-mode", f"GBS.compile({fmt(seq)}) on a register with a deleted first mode raised {got}", c2)
+          elif isinstance(got, Exception):
             res.stats["gbs_rejected"] += 1
-        else:
-            res.stats["gbs_accepted"] += 1
-            src_rest = [c for c in cmds if not is_mf(c.op)]
-            out_rest = [c for c in got if not is_mf(c.op)]
-            out_mf = [c for c in got if is_mf(c.op)]
-            measured = sorted({r.ind for c in cmds if is_mf(c.op) for r in c.reg})
-            n_meas = sum(len(c.reg) for c in cmds if is_mf(c.op))
-            if sorted(map(id, src_rest)) != sorted(map(id, out_rest)):
-                res.violation("C04|GBS.compile|commands", f"GBS.compile({fmt(seq)}) changed the non-measurement commands", c2)
-            elif len(out_mf) != 1 or got[-1] is not out_mf[0] or [r.ind for r in out_mf[0].reg] != measured or n_meas != len(measured):
-                res.violation("C04|GBS.compile|measurement", f"GBS.compile({fmt(seq)}) output measurement {[str(c) for c in out_mf]} for measured modes {measured}", c2)
-            else:
-                # order of the Gaussian part, and nothing that had to follow a measurement was moved before it
-                idx = [k for k, c in enumerate(cmds) if not is_mf(c.op)]
-                pos = {id(c): k for k, c in enumerate(got)}
-                for i, j in req:
-                    a, b = cmds[i], cmds[j]
-                    if is_mf(a.op) and not is_mf(b.op):
-                        res.violation("C04|GBS.compile|order|MF-before", f"GBS.compile({fmt(seq)}) accepted a circuit where command {j} must follow the measurement {i}", c2)
-                        break
-                    if not is_mf(a.op) and not is_mf(b.op) and pos[id(a)] > pos[id(b)]:
-                        res.violation("C04|GBS.compile|order", f"GBS.compile({fmt(seq)}) swapped dependent commands {i},{j}", c2)
-                        break
+          else:
+              res.stats["gbs_accepted"] += 1
+              src_rest = [c for c in cmds if not is_mf(c.op)]
+              out_rest = [c for c in got if not is_mf(c.op)]
+              out_mf = [c for c in got if is_mf(c.op)]
+              measured = sorted({r.ind for c in cmds if is_mf(c.op) for r in c.reg})
+              n_meas = sum(len(c.reg) for c in cmds if is_mf(c.op))
+              if sorted(map(id, src_rest)) != sorted(map(id, out_rest)):
+                  res.violation("C04|GBS.compile|commands", f"GBS.compile({fmt(seq)}) changed the non-measurement commands", c2)
+              elif len(out_mf) != 1 or got[-1] is not out_mf[0] or [r.ind for r in out_mf[0].reg] != measured or n_meas != len(measured):
+                  res.violation("C04|GBS.compile|measurement", f"GBS.compile({fmt(seq)}) output measurement {[str(c) for c in out_mf]} for measured modes {measured}", c2)
+              else:
+                  # order of the Gaussian part, and nothing that had to follow a measurement was moved before it
+                  idx = [k for k, c in enumerate(cmds) if not is_mf(c.op)]
+                  pos = {id(c): k for k, c in enumerate(got)}
+                  for i, j in req:
+                      a, b = cmds[i], cmds[j]
+                      if is_mf(a.op) and not is_mf(b.op):
+                          res.violation("C04|GBS.compile|order|MF-before", f"GBS.compile({fmt(seq)}) accepted a circuit where command {j} must follow the measurement {i}", c2)
+                          break
+                      if not is_mf(a.op) and not is_mf(b.op) and pos[id(a)] > pos[id(b)]:
+                          res.violation("C04|GBS.compile|order", f"GBS.compile({fmt(seq)}) swapped dependent commands {i},{j}", c2)
+                          break
     return moved
 
 
 def work(task):
-    prefix, L, chooser_mode = task
+    prefix, L, chooser_mode, full = task
     res = Res()
+    alpha = LETTERS if full else BASE
     for k in range(0, L - len(prefix) + 1):
-        for tail in itertools.product(LETTERS, repeat=k):
+        for tail in itertools.product(alpha, repeat=k):
             seq = tuple(prefix) + tail
             if not seq:
                 continue
@@ -320,28 +346,30 @@ def work(task):
 
 def run(ctx):
     quick = ctx.tier == "quick"
-    L_default, L_choose = (4, 3) if quick else (5, 4)
+    # (L, all linearisation answers?, full 31-letter alphabet?)
+    plans = [(4, False, False), (3, False, True), (3, True, True)] if quick else [(5, False, False), (4, False, True), (4, True, True)]
     expected = 0
-    for L, mode in ((L_default, False), (L_choose, True)):
-        expected += sum(len(LETTERS) ** k for k in range(1, L + 1))
+    for L, mode, full in plans:
+        alpha = LETTERS if full else BASE
+        expected += sum(len(alpha) ** k for k in range(1, L + 1))
         plen = min(L, 2)
         tasks = []
         for k in range(1, plen):
-            for pre in itertools.product(LETTERS, repeat=k):
-                tasks.append((pre, k, mode))
-        for pre in itertools.product(LETTERS, repeat=plen):
-            tasks.append((pre, L, mode))
+            for pre in itertools.product(alpha, repeat=k):
+                tasks.append((pre, k, mode, full))
+        for pre in itertools.product(alpha, repeat=plen):
+            tasks.append((pre, L, mode, full))
         for r in ctx.pmap(work, tasks, chunksize=4):
             ctx.add(r)
             if ctx.time_left() < 0:
                 ctx.close()
-                ctx.cap_hit(f"time budget hit in L={L} chooser={mode}")
+                ctx.cap_hit(f"time budget hit in L={L} chooser={mode} full={full}")
                 break
     ctx.cov["space_size_closed_form"] = expected
     if ctx.exhaustive and ctx.n != expected:
         raise RuntimeError(f"enumerated {ctx.n}, closed form {expected}")
     ctx.cov["letters"] = len(LETTERS)
-    ctx.cov["bounds"] = {"L_default_answer": L_default, "L_all_linearisations": L_choose, "modes": N}
+    ctx.cov["bounds"] = {"plans (L, all linearisations, 31-letter alphabet)": [list(p) for p in plans], "modes": N}
     ctx.assumptions += [
         "dependency reference: two commands must keep their order iff they share a target mode or one targets the mode whose measured value parametrises the other (O(L^2) pairwise check on the input)",
         "legal answers of topological_sort = all topological orders; of lexicographical_topological_sort = all orders obtained by repeatedly taking any available node of minimal key",
